@@ -60,6 +60,17 @@ def run_history(v, h, toks, hid, rnd, page_size, nrows, tier):
     # big histories: a table of more than 100 pages is read in every bracket AFTER the others, so that the 100-page cache
     # fills up and is dropped wholesale while pages of r / w / alt are in it
     gen.tree_db(live, page_size, rnd=random.Random(rnd.randrange(1 << 30)), n=nrows, extreme=False, deep_rows=450 if page_size == 512 else 0)
+    # the 32-bit file change counter is about to wrap: the commits of this history take it through 0xFFFFFFFF -> 0
+    with open(live, "r+b") as fh:
+        near = (0xFFFFFFFF - 3 - hid).to_bytes(4, "big")
+        fh.seek(24)
+        fh.write(near)
+        fh.seek(92)
+        fh.write(near)
+    chk = sqlite3.connect(live)
+    if chk.execute("PRAGMA integrity_check").fetchall() != [("ok",)]:
+        raise Infra("the file with the raised change counter fails integrity_check")
+    chk.close()
     snaps = [os.path.join(d, "v0.db")]
     shutil.copy(live, snaps[0])
     # plan: harness steps; commits are executed by tools/writer.py in another process
@@ -307,6 +318,14 @@ def run(tier):
         big = (i % 2 == 0)      # the fixed history (every commit kind, reads in between) runs on the file larger than the cache
         kinds, drift, p0, p1 = run_history(v, h, toks, i, rnd, 512 if big else 1024, 150 if big else 50, tier)
         hsum.append({"tokens": toks[:12], "commit_kinds": kinds, "pages_at_open": p0, "pages_at_end": p1, "drift": drift})
+    # the same through database/sql: a prepared statement must not remember the columns of an earlier state either
+    from checks import c19
+    dd = common.sub("c08-prepared")
+    pdb = os.path.join(dd, "prep.db")
+    pdesc = gen.tree_db(pdb, 1024, random.Random(rnd.randrange(1 << 30)), n=30, extreme=False)
+    ppairs = []
+    c19.prepared_again(v, "C08", h, dd, pdb, pdesc, ppairs)
+    bf.rows_events(v, "C08", ppairs, "c08-prepared")
     v.cov["histories"] = hsum
     v.cov["evaluations"] = v.cov.get("reads_judged", 0)
     v.cov["rule"] = ("histories (read | commit)* taken from TLC simulations of Reader.tla plus one fixed history covering every commit kind; "
